@@ -137,6 +137,31 @@ def applyAt (w : String) (tbl : Table) (ns : String) (target : Path) : Path → 
     (applyAt w tbl ns target (p ++ [l]) h).bind fun h' =>
       (applyAt w tbl ns target p t).bind fun t' => .ok (.cons l h' t')
 
+/-- `scope.ObjectsValue[id] = object`: replace (or add) an entry of a child list -/
+def setChild (id : String) (new : LTy) : LTy → LTy
+  | .cons l h t => if l == id then .cons l new t else .cons l h (setChild id new t)
+  | .nil => .cons id new .nil
+  | t => t
+
+/-- `ObjectsValue[id] = object` on the scope at position `target` of a larger tree. The new object
+    comes with its own (fresh) references; nothing else is touched - in particular references that
+    were linked to the replaced object are not: they carry the ADDRESS of the entry, which now
+    denotes the new object, whereas the Go pointer still denotes the old one until the namespace is
+    applied again (the correspondence check gives replaced objects a stale identity and only
+    observes after a re-application). -/
+def replaceAt (target : Path) (id : String) (new : LTy) : Path → LTy → LTy
+  | _, .leaf t => .leaf t
+  | _, .nil => .nil
+  | _, .ref i n link => .ref i n link
+  | p, .list i => .list (replaceAt target id new (p ++ ["[]"]) i)
+  | p, .map k v => .map (replaceAt target id new (p ++ ["{k}"]) k) (replaceAt target id new (p ++ ["{v}"]) v)
+  | p, .obj oid ps => .obj oid (replaceAt target id new p ps)
+  | p, .oneOf d ms => .oneOf d (replaceAt target id new p ms)
+  | p, .scope objs root =>
+    if p == target then .scope (setChild id new objs) root
+    else .scope (replaceAt target id new p objs) root
+  | p, .cons l h t => .cons l (replaceAt target id new (p ++ [l]) h) (replaceAt target id new p t)
+
 /-- An application whose panic the caller recovers from (`defer recover()`): the tree afterwards.
     A failed application yields no tree at all in the model, so the recovered caller keeps what it
     had. Abstraction (recorded): the Go pass links references in map order until it reaches the
